@@ -30,7 +30,8 @@ THEOREMS = [f'Gnpy.Verdict.{t}' for t in (
     'penalty_below_blocks', 'penalty_above_blocks', 'penalty_inside_finite', 'penalty_segment', 'totalPenalty_inf',
     'penalty_outside_blocks', 'minMetric_spec', 'penalty_normalised',
     'passFixed_iff', 'passAuto_iff', 'verdict_iff', 'verdict_margin', 'fixedReason_spec',
-    'selectMode_spec', 'none_feasible_reason', 'autoReason_spec', 'request_verdict_iff', 'requestCheck_spec', 'selectMode_served_feasible',
+    'selectMode_spec', 'none_feasible_reason', 'autoReason_spec', 'request_verdict_iff', 'requestCheck_spec',
+    'adddrop_osnr_once_per_crossing', 'crossing_default_values', 'crossing_profile_value', 'adddrop_route_default', 'crossingsOsnr_spec', 'selectMode_served_feasible',
     'selectMode_fails_old', 'selectModeOld_accepts_infeasible')] + [
     'Gnpy.HE.rintR_mono', 'Gnpy.HE.abs_rintR_sub_le', 'Gnpy.HE.round2_mono', 'Gnpy.HE.abs_round2_sub_le',
     'Gnpy.HE.round2_grid', 'Gnpy.Verdict.modeOrder_sorted', 'Gnpy.Verdict.mem_modeOrder']
@@ -45,6 +46,9 @@ RULE = ('one PRNG; kinds: trx (25 %: random received spectra, 1-5 successive upd
         'or the zero point; path when a verdict was produced (served or blocked by mode) - distinct = canonical JSON')
 MODEL_SCOPE = ('modelled: utils.snr_sum, Transceiver._calc_snr/update_snr/_calc_penalty/calc_penalties, json_io.Transceiver '
                'penalty normalisation, the added-noise list of request.propagate and of the mode loop, '
+               'which roadm-osnr every ROADM crossing contributes per carrier (profile selection and frequency-range lookup of '
+               'GnpyModel/Roadm.lean: user per_degree_impairments entry, else first library profile of the path type, else '
+               'add_drop_osnr + lin2db(2) for add/drop and nothing for express), '
                'propagate_and_optimize_mode (order, strict >, last explored mode, blocking reasons), the fixed-mode '
                'verdict of compute_path_with_disjunction for both directions, request rejection kinds of '
                'trx_mode_params/_check_one_request. Input of the model (not modelled here, see C01-C07): the line '
@@ -177,6 +181,13 @@ def gen_path(rng, tier, widen=False):
                                  {'dispersion_per_frequency': {'value': rng.choice([[0.9e-5, 1.4e-5, 2.0e-5, 2.6e-5], [2.4e-5, 2.0e-5, 1.5e-5, 1.1e-5]]),
                                                                'frequency': [191.0e12, 192.0e12, 193.0e12, 194.0e12]}}]),
             'split_pdl': [rng.choice([0.0, 0.2]), rng.choice([0.8, 1.5, 2.5])], 'split_pmd': [0.0, rng.choice([0.0, 4e-12])],
+            # roadm-osnr of the 'split' ROADM profiles per band half: add (id 1), drop (id 2), optional value on the express
+            # profile (id 0), alternative add (id 3) / drop (id 4) profiles that only a per_degree_impairments entry selects
+            'split_osnr': {'add': [rng.choice([40.0, 43.0]), rng.choice([35.0, 37.5, 40.0])],
+                           'drop': [rng.choice([40.0, 38.0]), rng.choice([36.0, 40.0])],
+                           'express': rng.choice([None, 48.0, 44.0]), 'add_alt': rng.choice([31.0, 33.5]),
+                           'drop_alt': rng.choice([32.0, 34.0])},
+            'user_profiles': [rng.choice([None, None, {'add': 3}, {'drop': 4}, {'add': 3, 'drop': 4}]) for _ in range(k)],
             'mode': None if auto else modes[0]['format'], 'bidir': rng.random() < 0.4,
             'power': rng.choice([None, None, 1e-3, 2e-3, 5e-4]), 'malformed': None}
     # thresholds: calibrated on each mode's own metric (absolute numbers are stored in the case)
@@ -266,24 +277,54 @@ def _mode_json(m):
     return d
 
 
-SPLIT_OSNR = 40
+SPLIT_DEFAULT = {'add': [40.0, 40.0], 'drop': [40.0, 40.0], 'express': None, 'add_alt': 33.0, 'drop_alt': 34.0}
 
 
 def _split_roadm(case):
-    """library ROADM whose add/drop/express impairments differ between the lower and the upper half of the request band"""
+    """library ROADM whose add/drop/express impairments (PDL, PMD, roadm-osnr) differ between the lower and the upper half of the
+    request band; profiles 3 (add) and 4 (drop) are only reachable through a per_degree_impairments entry"""
     mid = (case['band'][0] + case['band'][1]) / 2 + 1e9
     pdl, pmd = case.get('split_pdl', [0.0, 1.5]), case.get('split_pmd', [0.0, 0.0])
+    so = case.get('split_osnr') or SPLIT_DEFAULT
 
-    def ranges(extra):
-        return [dict({'frequency-range': {'lower-frequency': lo, 'upper-frequency': hi}, 'roadm-pmd': pmd[i], 'roadm-cd': 0,
-                      'roadm-pdl': pdl[i], 'roadm-inband-crosstalk': 0}, **extra)
-                for i, (lo, hi) in enumerate(((186e12, mid), (mid, 198e12)))]
+    def ranges(osnr):
+        out = []
+        for i, (lo, hi) in enumerate(((186e12, mid), (mid, 198e12))):
+            d = {'frequency-range': {'lower-frequency': lo, 'upper-frequency': hi}, 'roadm-pmd': pmd[i], 'roadm-cd': 0,
+                 'roadm-pdl': pdl[i], 'roadm-inband-crosstalk': 0, 'roadm-maxloss': 0}
+            if osnr is not None:
+                d['roadm-osnr'] = osnr[i]
+            out.append(d)
+        return out
     return {'type_variety': 'gsplit', 'target_pch_out_db': -20, 'add_drop_osnr': 38, 'pmd': 0, 'pdl': 0,
             'restrictions': {'preamp_variety_list': [], 'booster_variety_list': []},
             'roadm-path-impairments': [
-                {'roadm-path-impairments-id': 0, 'roadm-express-path': ranges({'roadm-maxloss': 0})},
-                {'roadm-path-impairments-id': 1, 'roadm-add-path': ranges({'roadm-maxloss': 0, 'roadm-osnr': SPLIT_OSNR})},
-                {'roadm-path-impairments-id': 2, 'roadm-drop-path': ranges({'roadm-maxloss': 0, 'roadm-osnr': SPLIT_OSNR})}]}
+                {'roadm-path-impairments-id': 0, 'roadm-express-path': ranges(None if so['express'] is None else [so['express']] * 2)},
+                {'roadm-path-impairments-id': 1, 'roadm-add-path': ranges(so['add'])},
+                {'roadm-path-impairments-id': 2, 'roadm-drop-path': ranges(so['drop'])},
+                {'roadm-path-impairments-id': 3, 'roadm-add-path': ranges([so['add_alt']] * 2)},
+                {'roadm-path-impairments-id': 4, 'roadm-drop-path': ranges([so['drop_alt']] * 2)}]}
+
+
+def _per_degree(case, i):
+    """per_degree_impairments of ROADM i (uids of the designed neighbours): the user's add profile towards every neighbour, the
+    user's drop profile from every neighbour"""
+    up = (case.get('user_profiles') or [None] * 9)[i] if i < len(case.get('user_profiles') or []) else None
+    if not up or (case.get('roadm_nodes') or [None] * 9)[i] != 'split':
+        return []
+    k = len(case['fwd']) + 1
+    out = []
+    for nb in (i - 1, i + 1):
+        if not 0 <= nb < k:
+            continue
+        spans_in = case['fwd'][nb] if nb < i else case['rev'][i]        # link nb -> i
+        if 'add' in up:
+            out.append({'from_degree': f'trx N{i}', 'to_degree': f'Edfa_booster_roadm N{i}_to_fiber (N{i} -> N{nb}) 0',
+                        'impairment_id': up['add']})
+        if 'drop' in up:
+            out.append({'from_degree': f'Edfa_preamp_roadm N{i}_from_fiber (N{nb} -> N{i}) {len(spans_in) - 1}',
+                        'to_degree': f'trx N{i}', 'impairment_id': up['drop']})
+    return out
 
 
 def _build(case, equalise_offsets=False):
@@ -298,6 +339,10 @@ def _build(case, equalise_offsets=False):
     eq = nets_g.build_equipment(doc)
     topo = nets_g.line_topo(case['fwd'], case['rev'], fiber_extra=case.get('fiber'),
                             roadm_params={i: v for i, v in enumerate(case.get('roadm_nodes') or []) if isinstance(v, dict)})
+    for i in range(len(case['fwd']) + 1):
+        pdi = _per_degree(case, i)
+        if pdi:
+            next(e for e in topo['elements'] if e['uid'] == f'roadm N{i}').setdefault('params', {})['per_degree_impairments'] = pdi
     for i, v in enumerate(case.get('roadm_nodes') or []):
         if v == 'detailed':
             next(e for e in topo['elements'] if e['uid'] == f'roadm N{i}')['type_variety'] = 'detailed_impairments'
@@ -347,14 +392,14 @@ def _prop(ctx, case, path0, baud, offset_db, tx_osnr):
                             tx_osnr, eq['SI']['default'].roll_off)
 
 
-def _indep_eval(prop, adddrop_db, tx_osnr, tables):
-    """independent receiver evaluation on a harness line propagation: per channel GSNR(0.1nm) with tx and every
-    add/drop contribution once, minus interpolated penalties; returns dict(min, snr01, pen)"""
+def _indep_eval(prop, contribs, tx_osnr, tables):
+    """independent receiver evaluation on a harness line propagation: per channel GSNR(0.1nm) with tx and every crossing's
+    contribution once, minus interpolated penalties; `contribs` = one per-channel list per contributing crossing"""
     rx = prop['rx']
     imp = {'chromatic_dispersion': rx.chromatic_dispersion, 'pmd': rx.pmd, 'pdl': rx.pdl}
     snr01, pen, met = [], [], []
     for i in range(prop['n']):
-        g = nets_g.indep_gsnr(float(rx.raw_snr_01nm[i]), 12.5e9, list(adddrop_db) + [tx_osnr])
+        g = nets_g.indep_gsnr(float(rx.raw_snr_01nm[i]), 12.5e9, [c[i] for c in contribs] + [tx_osnr])
         p = sum(nets_g.indep_interp(float(imp[name][i]), xs, ys) for name, xs, ys in tables)
         snr01.append(g)
         pen.append(p)
@@ -362,35 +407,102 @@ def _indep_eval(prop, adddrop_db, tx_osnr, tables):
     return {'min': min(met), 'snr01': snr01, 'pen': pen}
 
 
-def _adddrop(case, path, doc=None):
-    """the add and the drop contribution of the route, each once: a ROADM of the default kind states the OSNR of add and drop
-    together (`add_drop_osnr`, own value or the library's), so each stage counts add_drop_osnr + 10log10(2); a ROADM with
-    detailed impairments states `roadm-osnr` of its add path and of its drop path; express crossings contribute nothing"""
-    from gnpy.core.elements import Roadm
-    roadms = [e for e in path if isinstance(e, Roadm)]
-    if not roadms:
-        return []
+def _node_profiles(case, i, doc=None):
+    """(library profiles of ROADM i as plain dicts, add_drop_osnr of the node) read from the case / library document"""
     nodes = case.get('roadm_nodes') or []
+    v = nodes[i] if i < len(nodes) else None
+    if v == 'split':
+        lib = _split_roadm(case)
+    elif v == 'detailed':
+        lib = next(x for x in (doc or nets.eqpt_json())['Roadm'] if x.get('type_variety') == 'detailed_impairments')
+    else:
+        return [], (v['add_drop_osnr'] if isinstance(v, dict) else case['roadm']['add_drop_osnr'])
+    profs = []
+    for x in lib['roadm-path-impairments']:
+        kind = next(k_ for k_ in ('express', 'add', 'drop') if f'roadm-{k_}-path' in x)
+        profs.append({'id': x['roadm-path-impairments-id'], 'ptype': kind,
+                      'bands': [[b['frequency-range']['lower-frequency'], b['frequency-range']['upper-frequency'],
+                                 b.get('roadm-osnr')] for b in x[f'roadm-{kind}-path']]})
+    return profs, lib['add_drop_osnr']
 
-    def stage(r, kind):
-        i = int(r.uid.split('N')[-1])
-        v = nodes[i] if i < len(nodes) else None
-        if v == 'split':
-            return SPLIT_OSNR
-        if v == 'detailed':
-            lib = next(x for x in (doc or nets.eqpt_json())['Roadm'] if x.get('type_variety') == 'detailed_impairments')
-            imp = next(x[f'roadm-{kind}-path'] for x in lib['roadm-path-impairments'] if f'roadm-{kind}-path' in x)
-            return imp[0]['roadm-osnr']
-        ad = v['add_drop_osnr'] if isinstance(v, dict) else case['roadm']['add_drop_osnr']
-        return ad + 10 * math.log10(2)
-    if len(roadms) == 1:
-        return [stage(roadms[0], 'add')]
-    return [stage(roadms[0], 'add'), stage(roadms[-1], 'drop')]
+
+def _crossing_list(case, path, doc=None):
+    """the ROADM crossings of a route, described from the topology / library / per_degree_impairments only: path type from the
+    neighbours (after the transceiver: add, before it: drop, else express), library profiles, user entry, add_drop_osnr"""
+    from gnpy.core.elements import Roadm, Transceiver
+    out = []
+    for k, e in enumerate(path):
+        if not isinstance(e, Roadm):
+            continue
+        i = int(e.uid.split('N')[-1])
+        ptype = 'add' if isinstance(path[k - 1], Transceiver) else ('drop' if isinstance(path[k + 1], Transceiver) else 'express')
+        profs, ad = _node_profiles(case, i, doc)
+        user = next((d['impairment_id'] for d in _per_degree(case, i)
+                     if d['from_degree'] == path[k - 1].uid and d['to_degree'] == path[k + 1].uid), None)
+        out.append({'profiles': profs, 'user': user, 'ptype': ptype, 'add_drop_osnr': ad})
+    return out
+
+
+def _adddrop(case, path, prop=None, doc=None):
+    """the per-channel roadm-osnr contribution of every crossing of the route that contributes, evaluated with plain Python:
+    a default ROADM states the OSNR of add and drop together (`add_drop_osnr`), so each stage counts add_drop_osnr + 10log10(2);
+    a ROADM with profiles contributes the `roadm-osnr` of the user-selected profile, else of the first library profile of the
+    path type, for the frequency range holding the carrier; crossings without a value (express) contribute nothing"""
+    freqs = _freqs(case) if prop is None else [float(x) for x in prop['si'].frequency]
+    out = []
+    for c in _crossing_list(case, path, doc):
+        if c['user'] is not None:
+            prof = next(p_ for p_ in c['profiles'] if p_['id'] == c['user'])
+        else:
+            prof = next((p_ for p_ in c['profiles'] if p_['ptype'] == c['ptype']), None)
+        if prof is None:
+            vals = None if c['ptype'] == 'express' else [c['add_drop_osnr'] + 10 * math.log10(2)] * len(freqs)
+        else:
+            vals = []
+            for f in freqs:
+                vals.append(next((b[2] for b in prof['bands'] if b[2] is not None and (b[0] is None or b[0] <= f <= b[1])), None))
+            if all(x is None for x in vals):
+                vals = None
+        if vals is not None:
+            out.append(vals)
+    return out
+
+
+def _freqs(case):
+    """carrier frequencies of the request comb (create_input_spectral_information: f_min + spacing * i, i = 1..n)"""
+    n = int((case['band'][1] - case['band'][0]) // case['spacing'])
+    return [case['band'][0] + case['spacing'] * i for i in range(1, n + 1)]
+
+
+def _crossings_json(case, path, doc=None):
+    out = []
+    for c in _crossing_list(case, path, doc):
+        out.append({'profiles': [{'id': p_['id'], 'ptype': p_['ptype'],
+                                  'bands': [[None if b[0] is None else f2b(b[0]), f2b(b[1]), None if b[2] is None else f2b(b[2])]
+                                            for b in p_['bands']]} for p_ in c['profiles']],
+                    'user': c['user'], 'ptype': c['ptype'], 'add_drop_osnr': f2b(c['add_drop_osnr'])})
+    return out
+
+
+def _check_crossings(res, drv, case, path, prop, tx_osnr, label):
+    """correspondence: the per-carrier argument list of the receiver's update_snr as the MODEL builds it from the ROADM types,
+    profiles and per_degree_impairments of the route  vs  what the implementation's ROADMs hand out (get_impairment) + tx"""
+    freqs = [float(x) for x in prop['si'].frequency]
+    ans = drv.ask('c13.crossings', crossings=_crossings_json(case, path), freqs=fl(freqs), tx_osnr=f2b(tx_osnr))
+    impl = [[None if r is None else r[i] for r in prop['roadm']] + [float(tx_osnr)] for i in range(prop['n'])]
+    model = [a if isinstance(a, str) else [None if x is None else b2f(x) for x in a] for a in ans]
+    res.compared += max(1, len(impl))
+    ok = len(impl) == len(model) and all(
+        not isinstance(m_, str) and len(a) == len(m_) and all((x is None) == (y is None) and (x is None or abs(x - y) <= 1e-9)
+                                                                 for x, y in zip(a, m_)) for a, m_ in zip(impl, model))
+    if not ok:
+        res.mismatch(f'update_snr.arguments_from_crossings({label})', impl[:2], model[:2])
+    return model[0] if model and not isinstance(model[0], str) else None
 
 
 def _own_figures(ctx, case, path0, m):
     prop = _prop(ctx, case, path0, m['baud_rate'], m['offset_mdb'] / 1000, m['tx_osnr'])
-    return _indep_eval(prop, _adddrop(case, path0), m['tx_osnr'], _tables(ctx, m))
+    return _indep_eval(prop, _adddrop(case, path0, prop), m['tx_osnr'], _tables(ctx, m))
 
 
 def _prop_json(prop, baud_hz, offset_mdb):
@@ -654,18 +766,21 @@ def run_path(case, drv):
     thr_margin = eq['SI']['default'].sys_margins
     src_uid, dst_uid = f'trx N{case["src"]}', f'trx N{case["dst"]}'
     rpath0 = rev_paths[0]
-    adddrop = _adddrop(case, path0)
     from gnpy.core.elements import Roadm
     n_roadm = sum(1 for e in path0 if isinstance(e, Roadm))
     res.stats.update({f'path_roadms_{n_roadm}': 1, 'path_bidir': int(case['bidir']),
                       'path_fibre_dispersion_slope_or_per_frequency': int(bool(case.get('fiber'))),
                       'path_split_impairment_roadm': int('split' in (case.get('roadm_nodes') or [])),
+                      'path_user_per_degree_impairment_on_route': int(any(c['user'] is not None for c in _crossing_list(case, path0))),
+                      'path_express_crossing_with_osnr': int(any(c['ptype'] == 'express' and any(
+                          p_['ptype'] == 'express' and any(b[2] is not None for b in p_['bands']) for p_ in c['profiles'])
+                          for c in _crossing_list(case, path0))),
                       f'path_{"auto" if case["mode"] is None else "fixed"}': 1})
 
     def reverse_check(m, fwd_blocked):
         """reverse direction with mode m: correspondence + independent verdict; returns (pass or None, ill)"""
         rp = _prop(ctx, case, rpath0, m['baud_rate'], m['offset_mdb'] / 1000, m['tx_osnr'])
-        ev = _indep_eval(rp, _adddrop(case, rpath0), m['tx_osnr'], _tables(ctx, m))
+        ev = _indep_eval(rp, _adddrop(case, rpath0, rp), m['tx_osnr'], _tables(ctx, m))
         return rp, ev
 
     if case['mode'] is not None:
@@ -707,10 +822,10 @@ def run_path(case, drv):
         else:
             res.cmp_exact('compute_path_with_disjunction.fixed.blocking_reason', reason, ans['reason'])
         # argument lists of update_snr on the receivers
-        _check_contribs(res, drv, spy.calls, [(path0, fp, [m['tx_osnr']], src_uid, dst_uid)] +
+        _check_contribs(res, drv, case, spy.calls, [(path0, fp, [m['tx_osnr']], src_uid, dst_uid)] +
                         ([(rpath0, rp, [m['tx_osnr']], dst_uid, src_uid)] if case['bidir'] else []), loop=False)
         # ---- monitor -------------------------------------------------------------------------------------------------------------
-        ev = _indep_eval(fp, adddrop, m['tx_osnr'], _tables(ctx, m))
+        ev = _indep_eval(fp, _adddrop(case, path0, fp), m['tx_osnr'], _tables(ctx, m))
         _monitor_figures(res, 'forward', rx, ev)
         vf, ill = _judge(ev['min'], thr)
         vr, illr = (True, False)
@@ -803,6 +918,7 @@ def run_path(case, drv):
     # update_snr argument lists during the loop (forward) — the order explored by the implementation is the current
     # loop's or the repaired loop's; both give "roadm entries + exactly one tx" per call, which is what is compared
     if pairs:
+        _check_crossings(res, drv, case, path0, props[pairs[0]], fitting[0]['tx_osnr'], 'auto')
         n_rev = 2 if (case['bidir'] and chosen is not None) else 0
         explored = None if (near or not same_rep) else [rep['explored']]
         _check_loop_contribs(res, drv, spy.calls[:len(spy.calls) - n_rev], path0, props[pairs[0]], src_uid, dst_uid, modes,
@@ -813,7 +929,7 @@ def run_path(case, drv):
     ill = False
     for m in fitting:
         p = props[(m['baud_rate'], m['offset_mdb'])]
-        ev = _indep_eval(p, adddrop, m['tx_osnr'], _tables(ctx, m))
+        ev = _indep_eval(p, _adddrop(case, path0, p), m['tx_osnr'], _tables(ctx, m))
         v, i_ = _judge(ev['min'], m['OSNR'] + thr_margin)
         own[m['format']] = (v, ev)
         ill = ill or i_
@@ -903,7 +1019,7 @@ def _monitor_figures(res, which, rx, ev):
     return msg
 
 
-def _check_contribs(res, drv, calls, dirs, loop):
+def _check_contribs(res, drv, case, calls, dirs, loop):
     """fixed mode: per direction the emitter gets [tx], the receiver gets one entry per ROADM then tx"""
     exp = []
     for path, prop, txs, s_uid, d_uid in dirs:
@@ -914,8 +1030,12 @@ def _check_contribs(res, drv, calls, dirs, loop):
             v = next(it) if r else None
             vals.append(None if v is None else f2b(v[0]))
         a = drv.ask('c13.contribs', path=vals, is_roadm=is_roadm, txs=fl(txs))
+        res.cmp_exact('propagate.args(roadm values -> list)', [None if r is None else round(r[0], 9) for r in prop['roadm']] + [round(float(txs[0]), 9)],
+                      [None if x is None else round(b2f(x), 9) for x in a['propagate']])
+        # the list as the model builds it from the ROADM types / profiles / per_degree_impairments of the route
+        m0 = _check_crossings(res, drv, case, path, prop, txs[0], 'fixed')
         exp.append((s_uid, [txs[0]]))
-        exp.append((d_uid, [None if x is None else b2f(x) for x in a['propagate']]))
+        exp.append((d_uid, m0 if m0 is not None else [None if x is None else b2f(x) for x in a['propagate']]))
     got = [(u, [None if x is None else round(x, 9) for x in l]) for u, l in calls]
     expr = [(u, [None if x is None else round(x, 9) for x in l]) for u, l in exp]
     res.cmp_exact('propagate.update_snr.arguments', got, expr)
